@@ -10,6 +10,7 @@ pub mod c13;
 pub mod c14;
 pub mod c15;
 pub mod c16;
+pub mod c17;
 pub mod labelled;
 pub mod c18;
 pub mod c19;
@@ -19,5 +20,5 @@ pub mod exprspace;
 use crate::engine::Prop;
 
 pub fn all() -> Vec<Prop> {
-    vec![c01::PROP, c02::PROP, c03::PROP, c04::PROP, c05::PROP, c07::PROP, c11::PROP, c12::PROP, c13::PROP, c14::PROP, c15::PROP, c16::PROP, c18::PROP, c19::PROP, c20::PROP]
+    vec![c01::PROP, c02::PROP, c03::PROP, c04::PROP, c05::PROP, c07::PROP, c11::PROP, c12::PROP, c13::PROP, c14::PROP, c15::PROP, c16::PROP, c17::PROP, c18::PROP, c19::PROP, c20::PROP]
 }
